@@ -294,8 +294,7 @@ def run_case(case):
             affected = []
             if k == "rename_cells":
                 try:
-                    rs = w.rm.get(op2["space"])
-                    affected = [rs] + w.rm.subs_of(rs)
+                    affected = [w.rm.get(p_) for p_ in R.deriving_paths(w.rm, op2["space"], op2["name"])]
                 except KeyError:
                     pass
             r = w.apply(op2)
